@@ -79,6 +79,12 @@ pub struct Stepper {
     pub batch: u64,
     /// stop the run (flood flag) once this many outputs have been recorded
     pub out_limit: usize,
+    /// wall-clock budget of one run: a run that is merely long and busy (minutes of simulated time
+    /// with work in every tick) is stopped (flood flag, `too_slow`) before the parent's per-case
+    /// watchdog would mistake it for a tick that never returns
+    started: std::time::Instant,
+    pub too_slow: bool,
+    iters: u64,
     /// ticks the output recorder has counted so far / ticks covered by the tick_ms call being drained
     rec_ticks: u64,
     cur_n: u64,
@@ -148,6 +154,9 @@ impl Stepper {
             flood: false,
             batch: 1,
             out_limit: usize::MAX,
+            started: std::time::Instant::now(),
+            too_slow: false,
+            iters: 0,
             rec_ticks: 0,
             cur_n: 1,
             tick_err: None,
@@ -344,6 +353,12 @@ impl Stepper {
         let mut i = 0;
         while i < n {
             if self.flood {
+                return;
+            }
+            self.iters += 1;
+            if self.iters & 1023 == 0 && self.started.elapsed().as_secs() >= 6 {
+                self.flood = true;
+                self.too_slow = true;
                 return;
             }
             if self.owed_tick {
